@@ -9,14 +9,10 @@ import (
 	"os"
 	"strconv"
 
-	"verifharness/c17"
 	"verifharness/srcfacts"
 	"verifharness/vh"
 )
 
-var props = map[string]func(*vh.Run){
-	"C17": c17.Run,
-}
 
 func main() {
 	if len(os.Args) < 2 {
@@ -43,7 +39,7 @@ func main() {
 	only := fs.String("only", "", "")
 	fs.Parse(os.Args[2:])
 	seed, _ := strconv.ParseUint(*seedS, 10, 64)
-	f, ok := props[prop]
+	f, ok := vh.Props[prop]
 	if !ok {
 		fmt.Printf("unknown property %s\n", prop)
 		os.Exit(2)
